@@ -9,9 +9,9 @@ import time
 from checks.common import *
 
 QUICK_MODES = [("single", "MC_Cond_single.cfg"), ("struct", "MC_Cond_struct.cfg"), ("twobyte", "MC_Cond_twobyte.cfg"), ("cross", "MC_Cond_cross.cfg"),
-               ("pairq", "MC_Cond_pairq.cfg"), ("big", "MC_Cond_big.cfg")]
+               ("pairq", "MC_Cond_pairq.cfg"), ("big", "MC_Cond_big.cfg"), ("locks3", "MC_Cond_locks3.cfg")]
 THOROUGH_MODES = [("single", "MC_Cond_single_all.cfg"), ("struct", "MC_Cond_struct_all.cfg"), ("twobyte", "MC_Cond_twobyte.cfg"),
-                  ("cross", "MC_Cond_cross_all.cfg"), ("pair", "MC_Cond_pair.cfg"), ("pairq", "MC_Cond_pairq.cfg"), ("big", "MC_Cond_big.cfg")]
+                  ("cross", "MC_Cond_cross_all.cfg"), ("pair", "MC_Cond_pair.cfg"), ("pairq", "MC_Cond_pairq.cfg"), ("big", "MC_Cond_big.cfg"), ("locks3", "MC_Cond_locks3.cfg")]
 
 
 def file_hash(p):
